@@ -983,8 +983,12 @@ func (r *Runner) ensureStorage() error {
 	if r.Runstackpos < r.runtrackcount*4 {
 		doubleIntSlice(&r.runstack, &r.Runstackpos)
 	}
-	if r.Runtrackpos < r.runtrackcount*4 && !r.growTrack() {
-		return ErrBacktrackingStackLimit
+	// a single growTrack call may be capped by the stack limit before it
+	// provides the required capacity, so keep growing until there is room
+	for r.Runtrackpos < r.runtrackcount*4 {
+		if !r.growTrack() {
+			return ErrBacktrackingStackLimit
+		}
 	}
 	return nil
 }
